@@ -30,6 +30,10 @@ C07 — line-protocol driver of the models (core only).  One op per line, one an
   cmeta <p|s> <preAgg> <k> <cm>×k / cmetadec <p|s> <names> <hex>   (chunk meta, plain / self-compressing)
   mindex <d> <fields> / mindexdec <d> <hex>  (MetaIndex)       trailer <fields> / trailerdec <hex>  (Trailer)
   metaconsts                                 (length constants of the readers)
+  rec <fields, columns> / recdec <hex>       (record.Record.Marshal / Unmarshal)
+  wresp <code> <errno> <msg> / wrespdec      (msgservice.WritePointsResponse)
+  sreq <points> <n> {-|only:ids} / sreqdec   (msgservice.WriteStreamPointsRequest)
+  dw <type> <identity> <id> <data> / dwdec   (raftlog.DataWrapper)
 
 `zlen` is the observed length of the zstd (snappy, …) payload for the block's raw bytes: the
 library output is opaque to the model, only its length takes part in the mode decision.  In a
@@ -43,6 +47,7 @@ import OG.C07.Wal
 import OG.C07.StringFrame
 import OG.C07.ColSeg
 import OG.C07.MetaCodec
+import OG.C07.WireCodec
 
 namespace OG.C07
 
@@ -481,6 +486,111 @@ def stepMeta (op rest : String) : Option String :=
         | some (t, r) => "tr " ++ showTrailer t ++ " " ++ toString r.length)
   | _ => none
 
+/-! ### wire codecs -/
+
+def tIntW : TP W := do
+  let t ← tok
+  match t.toInt? with
+  | some i => if -(2 ^ 63 : Int) ≤ i ∧ i < 2 ^ 63 then pure (BitVec.ofInt 64 i) else failure
+  | none => failure
+
+def tRecord : TP RecordM := do
+  let nf ← tNat
+  let fs ← tRep (do let n ← tHex; let t ← tIntW; pure (⟨n, t⟩ : FieldM)) nf
+  let nc ← tNat
+  let cs ← tRep (do
+    let l ← tIntW; let n ← tIntW; let o ← tIntW; let v ← tHex; let b ← tHex
+    let t ← tok
+    match parseOffs t with
+    | some offs => pure (⟨l, n, o, v, b, offs⟩ : ColValM)
+    | none => failure) nc
+  pure ⟨fs, cs⟩
+
+def showRecord (r : RecordM) : String :=
+  let fs := r.schema.foldl (fun s f => s ++ " " ++ hexOrDash f.name ++ " " ++ toString f.type.toInt) ""
+  let cs := r.cols.foldl (fun s c => s ++ " " ++ toString c.len.toInt ++ " " ++ toString c.nilCount.toInt ++ " "
+    ++ toString c.bmOff.toInt ++ " " ++ hexOrDash c.val ++ " " ++ hexOrDash c.bitmap ++ " "
+    ++ (if c.offs.isEmpty then "-" else ",".intercalate (c.offs.map toString))) ""
+  toString r.schema.length ++ fs ++ " " ++ toString r.cols.length ++ cs
+
+def showSVar (v : Option StreamVarM) : String :=
+  match v with
+  | none => "-"
+  | some s => (if s.only then "1" else "0") ++ ":" ++ ",".intercalate (s.ids.map toString)
+
+def parseSVar (t : String) : Option (Option StreamVarM) :=
+  if t == "-" then some none
+  else match t.splitOn ":" with
+    | [o, ids] =>
+      let only := o == "1"
+      if o ≠ "0" ∧ o ≠ "1" then none
+      else if ids == "" then some (some ⟨only, []⟩)
+      else ((ids.splitOn ",").mapM fun (x : String) => x.toNat?).map fun l => some ⟨only, l⟩
+    | _ => none
+
+def stepWire (op rest : String) : Option String :=
+  match op with
+  | "rec" =>
+    some (match tRecord.run (rest.splitOn " ") with
+      | some (r, []) => "ok " ++ hexOrDash (marshalRecord r)
+      | _ => "bad-op")
+  | "recdec" =>
+    some (match hexBytes? rest with
+      | none => "bad-op"
+      | some bs =>
+        match unmarshalRecord bs with
+        | none => "err"
+        | some r => "rec " ++ showRecord r)
+  | "wresp" =>
+    some (match rest.splitOn " " with
+      | [c, e, m] =>
+        match c.toNat?, e.toNat?, hexBytes? m with
+        | some c, some e, some m =>
+          if c ≥ 256 ∨ e ≥ 65536 then "bad-op" else "ok " ++ hexOrDash (marshalWriteResp ⟨UInt8.ofNat c, e, m⟩)
+        | _, _, _ => "bad-op"
+      | _ => "bad-op")
+  | "wrespdec" =>
+    some (match hexBytes? rest with
+      | none => "bad-op"
+      | some bs =>
+        match unmarshalWriteResp bs with
+        | none => "err"
+        | some r => "wresp " ++ toString r.code.toNat ++ " " ++ toString r.errCode ++ " " ++ hexOrDash r.message)
+  | "sreq" =>
+    some (match rest.splitOn " " with
+      | pts :: n :: vars =>
+        match hexBytes? pts, n.toNat?, vars.mapM parseSVar with
+        | some pts, some n, some vs =>
+          if vs.length ≠ n then "bad-op" else "ok " ++ hexOrDash (marshalStreamReq ⟨pts, vs⟩)
+        | _, _, _ => "bad-op"
+      | _ => "bad-op")
+  | "sreqdec" =>
+    some (match hexBytes? rest with
+      | none => "bad-op"
+      | some bs =>
+        match unmarshalStreamReq bs with
+        | none => "err"
+        | some w =>
+          "sreq " ++ hexOrDash w.points ++ " " ++ toString w.vars.length
+            ++ w.vars.foldl (fun s v => s ++ " " ++ showSVar v) "")
+  | "dw" =>
+    some (match rest.splitOn " " with
+      | [t, i, p, d] =>
+        match t.toNat?, hexBytes? i, p.toNat?, hexBytes? d with
+        | some t, some i, some p, some d => "ok " ++ hexOrDash (marshalDataWrapper ⟨d, t, i, p⟩)
+        | _, _, _, _ => "bad-op"
+      | _ => "bad-op")
+  | "dwdec" =>
+    some (match hexBytes? rest with
+      | none => "bad-op"
+      | some bs =>
+        match unmarshalDataWrapper bs with
+        | none => "err"
+        | some d =>
+          "dw " ++ toString d.dataType ++ " " ++ hexOrDash d.identity ++ " " ++ toString d.proposeId ++ " "
+            ++ hexOrDash d.data)
+  | _ => none
+
 def step (line : String) : String :=
   let (op, rest) := splitOp line
   match op with
@@ -583,7 +693,7 @@ def step (line : String) : String :=
       | none => "err"
       | some [] => "bits -"
       | some vs => "bits " ++ String.ofList (vs.map fun b => if b then '1' else '0')
-  | _ => (stepMeta op rest).getD "bad-op"
+  | _ => ((stepMeta op rest).orElse fun _ => stepWire op rest).getD "bad-op"
 
 /-- read up to `n` lines. -/
 partial def readChunk (h : IO.FS.Stream) (n : Nat) (acc : Array String) : IO (Array String × Bool) := do
